@@ -9,6 +9,7 @@ import (
 	"encoding/json"
 	"flag"
 	"fmt"
+	"github.com/fxamacker/cbor/v2"
 	"math/big"
 	"os"
 	"runtime/pprof"
@@ -1065,6 +1066,20 @@ func (r *runner) presignCheat(label func(party.ID) string, seed string) {
 		pres := map[party.ID]*ecdsa.PreSignature{}
 		for id, x := range pr.Results {
 			pres[id] = x.(*ecdsa.PreSignature)
+		}
+		// the presignatures are stored and reloaded (cbor, ecdsa.EmptyPreSignature) before they are used
+		for id, p := range pres {
+			data, err := cbor.Marshal(p)
+			q := ecdsa.EmptyPreSignature(protos.Group)
+			if err == nil {
+				err = cbor.Unmarshal(data, q)
+			}
+			if err != nil {
+				r.out.Applicable = false
+				r.out.Why = "a presignature does not survive its encoding: " + err.Error()
+				return
+			}
+			pres[id] = q
 		}
 		bad, err := protos.TamperPreSignature(pres[r.byz], r.sc.Rule)
 		if err != nil {
